@@ -156,7 +156,9 @@ def run(ctx, eng):
     for p in cm.normal_paths(eng.I.run(f4)):
         pops = [e for e in p.events if e.kind == 'call' and
                 cm.ev_callee_names(e) & {'pop'} and
-                cm.attr_chain(e.recv) == 'self.streams']
+                cm.attr_chain(e.recv) == 'self.streams'] + \
+            [e for e in p.events if e.kind == 'del' and
+             cm.attr_chain(e.get('container')) == 'self.streams']
         st = [e for e in p.events if e.kind == 'store' and
               cm.attr_chain(e.container) == 'self._closed_streams']
         if pops and st:
